@@ -93,3 +93,28 @@ PROPS['C09']['level_text'] = PROPS['C09']['level_text'].replace(
 PROPS['C09']['explanation'] += (' CONCURRENT: the advisory-lock boundary is explored by the schedule harness (2-3 writers, all schedules with <= 2 deviations + random ones, HASH_LOGS=SYNC): '
                                'on every explored schedule the stored chain is linear in id order (monitor [not-linear]/[not-chain-hash] on the raw logs); C09_linear_serialized is the lemma that '
                                'turns "inserts serialized by the lock" into linearity.' + _sched_note)
+
+# ---- C12, concurrent part: import vs first writes / atomic bulks on an initializing ledger (Ledger/ConcImport.v, Props/C12c.v)
+PROPS['C12']['ties'].append(dict(name='TIE-S sched', vh='sched', model='schedimp', n=dict(quick=200, thorough=3000),
+                                 args=dict(quick=['-scenario', 'c12', '-rand', 5, '-pre', 2], thorough=['-scenario', 'c12', '-rand', 200, '-pre', 4]),
+                                 kinds=['C12'], case_head='sched'))
+PROPS['C12']['theorems'] += ['C12_conc_mutual_exclusion', 'C12_conc_accepted_is_pristine', 'C12_conc_writes_above_imported', 'C12_conc_write_means_in_use',
+                             'C12_conc_import_on_in_use_refused', 'C12_conc_rejected_no_effect', 'C12_conc_cache_coherent', 'C12_conc_from']
+PROPS['C12']['explanation'] = PROPS['C12']['explanation'].replace(
+    'The concurrent part is reduced to the hook stated in Props/C12.v (lock held by Import for its whole duration); schedules are not explored by this check.',
+    'The concurrent part is proved on the lock-protocol model (next paragraph) and explored on the real stack by the schedule tie.')
+PROPS['C12']['explanation'] += (' CONCURRENT (Props/C12c.v, model Ledger/ConcImport.v: importer = session lock, row read, one transaction per log, unlock; writer on an initializing cache = BEGIN, '
+    'transaction-scoped lock, markInUse, setval x2, write(s), COMMIT/ROLLBACK; writer on an in-use cache = no lock), for ALL schedules, any number of importers and writers (single writes and atomic bulks, '
+    'succeeding or failing): (a) C12_conc_mutual_exclusion - at most one request is inside a critical section and it holds the ledger lock; (b) C12_conc_accepted_is_pristine - an accepted import, until it '
+    'releases the lock, sees a row that is still initializing, no flip in flight and imported logs only (no write committed before it or while it runs); C12_conc_writes_above_imported - every log of a write has an id '
+    'above every imported log; C12_conc_write_means_in_use + C12_conc_import_on_in_use_refused - once a write committed the row says in-use and an importer reading it is refused, with only its unlock left to do; '
+    '(c) C12_conc_rejected_no_effect - a rejected import owns no stored log; C12_conc_cache_coherent - a facade cache never runs ahead of the row, which is why the lock-free fast path is safe. Nothing is refuted: writes '
+    'are never refused because of the state, by design. TIE-S: scenarios c12-import-vs-write / -vs-bulk / -vs-two / -shifted / -vs-failing (every request through its own facade resolved before the race = possibly stale '
+    'initializing cache; HASH_LOGS SYNC and DISABLED), all schedules with <= 2 deviations + random, protocol-level scheduling points (lock, row read, last log, each imported log\'s COMMIT, unlock, xact lock, markInUse, '
+    'setval, COMMIT/ROLLBACK; the statements of a write / of one imported log run inside the lock and the monitor [c12-conc-wait-inside-critical-section] checks that none of them ever waits); exact match of results, commit '
+    'order, stored logs with their origin, row state and event trace with the extracted model; monitors [c12-conc-write-inside-import], [c12-conc-id-order], [c12-conc-rejected-effect], [c12-conc-accepted-incomplete], '
+    '[c12-conc-state]. An atomic bulk is run as Bulker.Run runs it (facade BeginTX, elements on the returned controller, Commit) but in the request\'s goroutine (the Bulker uses a worker pool; the scheduler identifies a request '
+    'by its goroutine). Seeded N-C12 is also caught by this tie ([c12-conc-write-inside-import], scenario c12-import-shifted).')
+PROPS['C12']['level_text'] += (' Concurrent part: theorems for ALL schedules on the ledger-lock protocol model Ledger/ConcImport.v (mutual exclusion of the critical sections; accepted import => pristine until its unlock; '
+    'writes land above imported ids; rejected import => no effect), tied to the real stack by exhaustive bounded schedule exploration (<= 2 deviations) + random schedules with exact outcome and event-trace match.')
+PROPS['C12']['trusted'] = PROPS['C12'].get('trusted', []) + CONC_TRUST
